@@ -87,7 +87,7 @@ def main():
             pad = {}
             for mi, n in enumerate(names):
                 pad[n] = {"c": [hl(a1[mi]), hl(a2[mi]), hl(a3[mi]), hl(a4[mi])],
-                          "chi": [hl(np.asarray(susceptibility_from_coefficients(a1[mi], a2[mi], a3[mi], w, dt, a4[mi]))) for w in omegas]}
+                          "chi": [hl(np.asarray(susceptibility_from_coefficients(a1[mi], a2[mi], a3[mi], w, dt, a4[mi]))) for w in omegas[2:3]]}
             r["pad"] = pad
         except ValueError as e:
             r["tensor_error"] = str(e)[:60]
